@@ -57,6 +57,7 @@ struct Sched {
     ncv: usize,
     abort: bool,
     deadlock: Option<String>,
+    states_at_end: Option<Vec<String>>,
     choices: Vec<u8>,
     replay: Option<Vec<u8>>,
     steps: usize,
@@ -158,6 +159,7 @@ fn reschedule(mut g: SGuard<'static, Option<Sched>>, me: usize, wait: bool) -> O
                 if s.th.iter().any(|t| t.st != St::Done) {
                     s.deadlock = Some(describe(s));
                 }
+                s.states_at_end = Some(s.th.iter().map(|t| format!("{:?}", t.st)).collect());
                 s.abort = true;
             }
         }
@@ -250,6 +252,7 @@ pub fn run<F: FnOnce()>(seed: u64, replay: Option<Vec<u8>>, f: F) -> Outcome {
             ncv: 0,
             abort: false,
             deadlock: None,
+            states_at_end: None,
             choices: vec![],
             replay,
             steps: 0,
@@ -268,6 +271,7 @@ pub fn run<F: FnOnce()>(seed: u64, replay: Option<Vec<u8>>, f: F) -> Outcome {
                 Some(n) => s.cur = n,
                 None => {
                     s.deadlock = Some(describe(s));
+                    s.states_at_end = Some(s.th.iter().map(|t| format!("{:?}", t.st)).collect());
                     s.abort = true;
                 }
             }
@@ -289,7 +293,7 @@ pub fn run<F: FnOnce()>(seed: u64, replay: Option<Vec<u8>>, f: F) -> Outcome {
     }
     TID.with(|t| t.set(NONE));
     let s = g.take().unwrap();
-    let fs = final_states.unwrap_or_else(|| s.th.iter().map(|t| format!("{:?}", t.st)).collect());
+    let fs = s.states_at_end.clone().or(final_states).unwrap_or_else(|| s.th.iter().map(|t| format!("{:?}", t.st)).collect());
     Outcome { deadlock: s.deadlock, final_states: fs, choices: s.choices, clock_ns: s.clock, steps: s.steps, trace: s.trace }
 }
 
